@@ -303,6 +303,8 @@ impl<V: VringT<GM> + Send + Sync + 'static> VhostUserBackend for TB<V> {
                 rec["used"] = json!({"add_used_ok": r1, "signal_ok": r2});
             }
             self.log.push_dispatch(rec);
+            // a hold point inside the handler (concurrent schedules: kicks and control messages while the handler runs)
+            vhost::verif::hit("w.in_dispatch", &[thread_id as u64, device_event as u64]);
             if sc.handle_err {
                 return Err(std::io::Error::other("scripted handle_event failure"));
             }
